@@ -10,8 +10,9 @@
 use crate::walker::{self, TrackData, ViewData};
 use std::collections::BTreeMap;
 
-pub const TRACKED: [&str; 10] = [
+pub const TRACKED: [&str; 11] = [
     "bones",
+    "particle_emitters",
     "color_animations",
     "texture_animations",
     "transparency_animations",
@@ -36,6 +37,9 @@ pub struct Seed {
     pub views: Vec<ViewData>,
     /// records 0 and 2 share the timestamps array of their first animated value
     pub share: bool,
+    /// animated values without key frames carry a non-default interpolation / global sequence
+    #[allow(dead_code)]
+    pub keyless_headers: bool,
 }
 
 struct Out {
@@ -92,8 +96,12 @@ pub fn timestamps(k: usize, base: u32) -> Vec<u8> {
 }
 
 /// Build the spec of a seed: which sections carry records, how many, how many keys.
-pub fn make_seed(version: u32, sections: &[&'static str], n: usize, k: usize, share: bool) -> Seed {
-    let mut s = Seed { version, name: b"Seed\\Model.m2\0".to_vec(), n_vertices: 2, n_global_sequences: 2, share, ..Default::default() };
+pub const VARIANTS: [&str; 3] = ["plain", "shared_timestamps", "keyless_tracks_with_header"];
+
+pub fn make_seed(version: u32, sections: &[&'static str], n: usize, k: usize, variant: usize) -> Seed {
+    let share = variant == 1;
+    let keyless_headers = variant == 2;
+    let mut s = Seed { version, name: b"Seed\\Model.m2\0".to_vec(), n_vertices: 2, n_global_sequences: 2, share, keyless_headers, ..Default::default() };
     for (si, sec) in sections.iter().enumerate() {
         match *sec {
             "events" => {
@@ -101,6 +109,7 @@ pub fn make_seed(version: u32, sections: &[&'static str], n: usize, k: usize, sh
                     let tag = 7000 + i as u32;
                     let ranges = if version <= 263 && i % 2 == 0 { pattern(tag, 8 * 2) } else { vec![] };
                     let times = if i == 1 { vec![] } else { timestamps(k, 10 * i as u32) };
+                    let ranges = if k == 0 { vec![] } else { ranges };
                     s.events.push((ranges, times));
                 }
             }
@@ -129,7 +138,7 @@ pub fn make_seed(version: u32, sections: &[&'static str], n: usize, k: usize, sh
                     for (j, (_, vsz)) in slots.iter().enumerate() {
                         let tag = (si as u32 + 1) * 1000 + (i * 16 + j) as u32;
                         // mix populated and empty animated values inside one record
-                        let populated = (i + j) % 2 == 0;
+                        let populated = (i + j) % 2 == 0 && k > 0;
                         if populated {
                             r.push(TrackData {
                                 interp: [1u16, 0, 2, 3][(i + j) % 4],
@@ -139,12 +148,13 @@ pub fn make_seed(version: u32, sections: &[&'static str], n: usize, k: usize, sh
                                 values: Some(pattern(tag, vsz * k)),
                             });
                         } else {
-                            r.push(TrackData { interp: 0, gseq: 0xFFFF, ranges: Some(vec![]), times: Some(vec![]), values: Some(vec![]) });
+                            let (interp, gseq) = if keyless_headers { (1, (j % 2) as u16) } else { (0, 0xFFFF) };
+                            r.push(TrackData { interp, gseq, ranges: Some(vec![]), times: Some(vec![]), values: Some(vec![]) });
                         }
                     }
                     recs.push(r);
                 }
-                if share && n >= 3 {
+                if share && n >= 3 && k > 0 {
                     // record 2 re-uses record 0's timestamps of the first animated value
                     let t = recs[0][0].times.clone();
                     recs[2][0].times = t;
@@ -194,6 +204,25 @@ fn fixed_fields(sec: &str, i: usize, version: u32) -> (Vec<u8>, Vec<u8>) {
             p32(&mut z, 70 + i as u32);
             p16(&mut z, (i % 2) as u16);
             p16(&mut z, 0);
+        }
+        "particle_emitters" => {
+            p32(&mut a, 300 + i as u32);
+            p32(&mut a, 0x8);
+            for c in 0..3 {
+                pf(&mut a, 0.125 * (i + c) as f32);
+            }
+            p16(&mut a, i as u16);
+            p16(&mut a, 0);
+            a.extend_from_slice(&[0u8; 8]); // geometry model file name: empty
+            p16(&mut a, 0xFFFF);
+            p16(&mut a, 0);
+            a.extend_from_slice(&[1, (i % 5) as u8, 0, 0]); // blending, emitter type, particle type, head/tail
+            a.extend_from_slice(&[0u8; 8]); // tile coordinates: empty
+            for c in 0..52 {
+                pf(&mut a, 0.5 + c as f32);
+            }
+            p32(&mut a, 9);
+            pf(&mut a, 2.0);
         }
         "ribbon_emitters" => {
             p32(&mut a, i as u32);
@@ -263,7 +292,7 @@ pub fn emit(s: &Seed) -> Vec<u8> {
                 pf(&mut rec, 0.1);
             }
             for (j, t) in r.iter().enumerate() {
-                let shared = if s.share && i == 2 && j == 0 && recs.len() >= 3 { first_times } else { None };
+                let shared = if s.share && i == 2 && j == 0 && recs.len() >= 3 && t.times.as_ref().map(|x| !x.is_empty()).unwrap_or(false) { first_times } else { None };
                 let (tb, ta) = track_bytes(&mut o, t, with_ranges, slots[j].1, shared);
                 if i == 0 && j == 0 {
                     first_times = Some(ta);
